@@ -1266,3 +1266,290 @@ Section ByteStream.
     right. exists ds, dfin. split; [exact Ed|]. unfold flush_ok. rewrite He. destruct (decode_flush dfin); [discriminate|reflexivity].
   Qed.
 End ByteStream.
+
+(* ------------------------------------------------------------------ Part 2: the producer computes the records_of_lines spec *)
+
+Definition jresult_of_result (r : result) : jresult :=
+  match r with
+  | ROk recs h w nl nr => JOk recs h w nl nr
+  | RErr nr nl => JErr (JDefect nr nl)
+  end.
+
+(* the comment prefix contains no LF (rbql-js tests the prefix on physical lines, rbql-py on the assembled record) *)
+Definition comment_ok (c : cfg) : Prop :=
+  match eff_comment c with Some p => ~ In LF p | None => True end.
+
+Lemma str_eqb_eq : forall a b, str_eqb a b = true -> a = b.
+Proof.
+  induction a as [|x a IH]; intros [|y b] H; cbn in H; try discriminate; [reflexivity|].
+  apply andb_true_iff in H. destruct H as [H1 H2]. apply N.eqb_eq in H1. rewrite (IH b H2), H1. reflexivity.
+Qed.
+
+Lemma starts_with_join p : ~ In LF p -> forall l more,
+  starts_with p l = false -> starts_with p (join [LF] (l :: more)) = false.
+Proof.
+  intros Hp l more. destruct more as [|m ms]; [cbn; auto|].
+  change (join [LF] (l :: m :: ms)) with (l ++ [LF] ++ join [LF] (m :: ms)).
+  generalize (join [LF] (m :: ms)) as rest. intros rest. revert l.
+  induction p as [|c0 p IH]; intros l H; [discriminate|].
+  destruct l as [|x l]; cbn.
+  - assert (Hc : N.eqb c0 LF = false). { apply N.eqb_neq. intros ->. apply Hp. left. reflexivity. }
+    rewrite Hc. reflexivity.
+  - cbn in H. destruct (N.eqb c0 x); [|reflexivity]. cbn in *. apply IH; [|exact H].
+    intros Hin. apply Hp. right. exact Hin.
+Qed.
+
+Lemma is_comment_join c l more : comment_ok c -> is_comment c l = false -> is_comment c (join [LF] (l :: more)) = false.
+Proof.
+  unfold comment_ok, is_comment. destruct (eff_comment c) as [p|]; [|reflexivity].
+  intros Hp H. apply starts_with_join; assumption.
+Qed.
+
+Section JsSpec.
+  Variable split : str -> list str * bool.
+
+  Definition bump (p : jprod) : jprod :=
+    {| jNL := S (jNL p); jNR := jNR p; j_bom := j_bom p; j_fdl := j_fdl p; j_finfo := j_finfo p; j_agg := j_agg p |}.
+
+  (* process_line after the first line: no BOM business *)
+  Definition pl_core (c : cfg) (line : str) (p : jprod) : jprod * list action :=
+    if c_rfc c then process_partial_rfc_record_line split c line (bump p) else process_record_line_simple split c line (bump p).
+
+  Fixpoint process_lines_nb (c : cfg) (lines : list str) (p : jprod) : jprod * list action :=
+    match lines with
+    | [] => (p, [])
+    | l :: r => let '(p1, a1) := pl_core c l p in
+                let '(p2, a2) := process_lines_nb c r p1 in (p2, a1 ++ a2)
+    end.
+
+  Lemma process_line_nb c l p : jNL p <> 0%nat -> process_line split c l p = pl_core c l p.
+  Proof.
+    intros H. unfold process_line, pl_core, bump. destruct (jNL p) as [|n]; [congruence|]. cbn [Nat.eqb andb]. reflexivity.
+  Qed.
+
+  Lemma pl_core_NL c l p : jNL (fst (pl_core c l p)) = S (jNL p).
+  Proof.
+    unfold pl_core. destruct (c_rfc c).
+    - unfold process_partial_rfc_record_line.
+      destruct (has_comment_line _); [reflexivity|]. destruct (has_full_record _); [|reflexivity].
+      unfold process_record_line. destruct (split _) as [rec w]. reflexivity.
+    - unfold process_record_line_simple. destruct (is_comment c l); [reflexivity|].
+      unfold process_record_line. destruct (split l) as [rec w]. reflexivity.
+  Qed.
+
+  Lemma process_lines_nb_eq c : forall L p, jNL p <> 0%nat -> process_lines split c L p = process_lines_nb c L p.
+  Proof.
+    induction L as [|l r IH]; intros p H; [reflexivity|]. cbn [process_lines process_lines_nb].
+    rewrite (process_line_nb c l p H). pose proof (pl_core_NL c l p) as HN.
+    destruct (pl_core c l p) as [p1 a1]. cbn [fst] in HN. rewrite IH by lia. reflexivity.
+  Qed.
+
+  Definition with_bom (p : jprod) (b : bool) : jprod :=
+    {| jNL := jNL p; jNR := jNR p; j_bom := b; j_fdl := j_fdl p; j_finfo := j_finfo p; j_agg := j_agg p |}.
+
+  (* the BOM is taken off the first physical line and nothing else happens *)
+  Lemma process_lines_bom c lines :
+    process_lines split c lines jprod_init =
+    process_lines_nb c (fst (strip_bom_first (c_enc c) lines)) (with_bom jprod_init (snd (strip_bom_first (c_enc c) lines))).
+  Proof.
+    destruct lines as [|l r]; [reflexivity|]. cbn [process_lines strip_bom_first].
+    unfold process_line. cbn [jprod_init jNL Nat.eqb andb].
+    destruct (str_eqb (remove_utf8_bom l (c_enc c)) l) eqn:E; cbn [fst snd negb process_lines_nb].
+    - apply str_eqb_eq in E. rewrite E. unfold pl_core, bump, with_bom. cbn.
+      match goal with |- (let '(p1, a1) := ?x in _) = (let '(p1', a1') := ?y in _) => change y with x; destruct x as [p1 a1] eqn:E1 end.
+      assert (HN : jNL p1 <> 0%nat).
+      { pose proof (pl_core_NL c l jprod_init) as HN. unfold pl_core, bump in HN. cbn in HN. rewrite E1 in HN. cbn in HN. lia. }
+      rewrite (process_lines_nb_eq c r p1 HN). reflexivity.
+    - unfold pl_core, bump, with_bom. cbn.
+      match goal with |- (let '(p1, a1) := ?x in _) = (let '(p1', a1') := ?y in _) => change y with x; destruct x as [p1 a1] eqn:E1 end.
+      assert (HN : jNL p1 <> 0%nat).
+      { pose proof (pl_core_NL c (remove_utf8_bom l (c_enc c)) (with_bom jprod_init true)) as HN. unfold pl_core, bump, with_bom in HN. cbn in HN.
+        rewrite E1 in HN. cbn in HN. lia. }
+      rewrite (process_lines_nb_eq c r p1 HN). reflexivity.
+  Qed.
+
+  (* what the JS producer does with a list of non-comment logical rows: NR, first defective line, fields_info, and the
+     calls into the consumer-facing side. It does not stop at an rfc defect: it stores the exception and goes on *)
+  Fixpoint emit_rows (c : cfg) (nr : nat) (fdl : option nat) (finfo : list (nat * nat)) (rows : list (str * nat))
+    : (nat * option nat * list (nat * nat)) * list action :=
+    match rows with
+    | [] => ((nr, fdl, finfo), [])
+    | (line, nl) :: r =>
+        let nr' := S nr in
+        let first := match fdl with None => true | Some _ => false end in
+        let fdl' := if snd (split line) && first then Some nl else fdl in
+        let acts := (if snd (split line) && first && c_rfc c then [AStore (JDefect nr' nl)] else []) ++ [AEnqueue (fst (split line))] in
+        let '(fin, acts2) := emit_rows c nr' fdl' (fields_info_add finfo (length (fst (split line))) nr') r in
+        (fin, acts ++ acts2)
+    end.
+
+  Definition pstate (p : jprod) := (jNR p, j_fdl p, j_finfo p).
+
+  (* process_record_line = one step of emit_rows *)
+  Lemma prl_emit c line p :
+    let '(p1, a1) := process_record_line split c line p in
+    forall rest, emit_rows c (jNR p) (j_fdl p) (j_finfo p) ((line, jNL p) :: rest) =
+                 (let '(fin, a2) := emit_rows c (jNR p1) (j_fdl p1) (j_finfo p1) rest in (fin, a1 ++ a2)) /\
+    jNL p1 = jNL p /\ j_bom p1 = j_bom p /\ j_agg p1 = j_agg p.
+  Proof.
+    unfold process_record_line. destruct (split line) as [record warning] eqn:Es. intros rest.
+    cbn [emit_rows jNR j_fdl j_finfo jNL j_bom j_agg]. rewrite Es. cbn [fst snd]. auto.
+  Qed.
+
+  Definition agg_open (op : list str) : agg := {| rfc_line_buffer := op; has_full_record := false; has_comment_line := false |}.
+
+  Lemma set_agg_same p a : j_agg p = a -> set_agg p a = p.
+  Proof. intros <-. destruct p; reflexivity. Qed.
+
+  (* quoted_rfc: the aggregator is the [open] argument of group_rfc *)
+  Lemma nb_rfc c : comment_ok c -> c_rfc c = true -> forall L p op,
+    j_agg p = agg_open op -> (op <> [] -> is_comment c (hd [] op) = false) ->
+    let '(p1, a1) := process_lines_nb c L p in
+    let '(p2, a2) := flush_aggregator split c p1 in
+    emit_rows c (jNR p) (j_fdl p) (j_finfo p) (filter (nc c) (group_rfc c op (jNL p) L)) = (pstate p2, a1 ++ a2) /\
+    jNL p2 = (jNL p + length L)%nat /\ j_bom p2 = j_bom p.
+  Proof.
+    intros Hcok Hrfc. induction L as [|l r IH]; intros p op Hagg Hop.
+    - cbn [process_lines_nb]. unfold flush_aggregator, is_inside_multiline_record. rewrite Hagg. cbn [agg_open rfc_line_buffer has_full_record].
+      destruct op as [|o os]; cbn [length Nat.eqb negb andb group_rfc filter app].
+      + cbn. unfold pstate. repeat split; auto; lia.
+      + unfold get_full_line. cbn [agg_open rfc_line_buffer].
+        assert (Hnc : nc c (join [LF] (o :: os), jNL p) = true).
+        { unfold nc. cbn [fst]. rewrite (is_comment_join c o os Hcok (Hop ltac:(discriminate))). reflexivity. }
+        rewrite Hnc. pose proof (prl_emit c (join [LF] (o :: os)) p) as H.
+        destruct (process_record_line split c (join [LF] (o :: os)) p) as [p1 a1].
+        destruct (H []) as (E & A & B & _). rewrite E. cbn [emit_rows]. unfold pstate. rewrite app_nil_r. repeat split; auto; lia.
+    - cbn [process_lines_nb]. unfold pl_core. rewrite Hrfc. unfold process_partial_rfc_record_line.
+      assert (Hb : j_agg (bump p) = agg_open op) by exact Hagg.
+      rewrite Hb. unfold add_line. cbn [agg_open has_full_record has_comment_line orb rfc_line_buffer].
+      destruct op as [|o os].
+      + (* at a record start *)
+        cbn [group_rfc]. destruct (is_comment c l) eqn:Ec; cbn [has_comment_line has_full_record].
+        * (* a comment line: dropped *)
+          cbn [filter]. unfold nc at 1. cbn [fst]. rewrite Ec. cbn [negb app].
+          specialize (IH (set_agg (bump p) agg_reset) [] eq_refl ltac:(congruence)).
+          destruct (process_lines_nb c r (set_agg (bump p) agg_reset)) as [p1 a1]. cbn [app].
+          destruct (flush_aggregator split c p1) as [p2 a2]. cbn [set_agg bump jNL jNR j_fdl j_finfo j_bom] in IH.
+          destruct IH as (E & A & B). rewrite E. cbn [length]. repeat split; auto. lia.
+        * cbn [app length Nat.eqb Nat.ltb Nat.leb]. unfold quotes_odd at 1 2.
+          destruct (Nat.odd (count_ch QT l)) eqn:Eo; cbn [negb andb orb].
+          -- (* opens a multi-line record *)
+             change (quotes_odd l) with (Nat.odd (count_ch QT l)). rewrite Eo. cbn [negb andb orb].
+             fold (agg_open [l]).
+             specialize (IH (set_agg (bump p) (agg_open [l])) [l] eq_refl (fun _ => Ec)).
+             destruct (process_lines_nb c r (set_agg (bump p) (agg_open [l]))) as [p1 a1]. cbn [app].
+             destruct (flush_aggregator split c p1) as [p2 a2]. cbn [set_agg bump jNL jNR j_fdl j_finfo j_bom] in IH.
+             destruct IH as (E & A & B). rewrite E. cbn [length app]. repeat split; auto. lia.
+          -- (* a one-line record *)
+             change (quotes_odd l) with (Nat.odd (count_ch QT l)). rewrite Eo. cbn [negb andb orb].
+             cbn [filter]. unfold nc at 1. cbn [fst]. rewrite Ec. cbn [negb].
+             unfold get_full_line. cbn [rfc_line_buffer join].
+             pose proof (prl_emit c l (set_agg (bump p) {| rfc_line_buffer := [l]; has_full_record := true; has_comment_line := false |})) as H.
+             destruct (process_record_line split c l _) as [p1 a1]. cbn [set_agg bump jNL jNR j_fdl j_finfo j_bom j_agg] in H.
+             specialize (IH (set_agg p1 agg_reset) [] eq_refl ltac:(congruence)).
+             destruct (process_lines_nb c r (set_agg p1 agg_reset)) as [p2 a2].
+             destruct (flush_aggregator split c p2) as [p3 a3]. cbn [set_agg jNL jNR j_fdl j_finfo j_bom] in IH.
+             destruct (H (filter (nc c) (group_rfc c [] (S (jNL p)) r))) as (E & A & B & _). rewrite E.
+             destruct IH as (E2 & A2 & B2). rewrite A in E2. rewrite E2. cbn [length]. rewrite <- app_assoc. repeat split; auto; try lia; congruence.
+      + (* inside a multi-line record *)
+        rewrite group_rfc_open. cbn [has_comment_line has_full_record].
+        assert (Hlen : Nat.eqb (length ((o :: os) ++ [l])) 1 = false) by (rewrite app_length; cbn; destruct (length os); reflexivity).
+        assert (Hlt : Nat.ltb 1 (length ((o :: os) ++ [l])) = true) by (rewrite app_length; cbn; destruct (length os); reflexivity).
+        rewrite Hlen, Hlt, andb_false_r, andb_true_r. cbn [orb].
+        destruct (quotes_odd l) eqn:Eo.
+        * unfold get_full_line. cbn [rfc_line_buffer].
+          assert (Hnc : nc c (join [LF] ((o :: os) ++ [l]), S (jNL p)) = true).
+          { unfold nc. cbn [fst app]. rewrite (is_comment_join c o (os ++ [l]) Hcok (Hop ltac:(discriminate))). reflexivity. }
+          cbn [filter]. rewrite Hnc.
+          pose proof (prl_emit c (join [LF] ((o :: os) ++ [l])) (set_agg (bump p) {| rfc_line_buffer := (o :: os) ++ [l]; has_full_record := true; has_comment_line := false |})) as H.
+          destruct (process_record_line split c (join [LF] ((o :: os) ++ [l])) _) as [p1 a1]. cbn [set_agg bump jNL jNR j_fdl j_finfo j_bom j_agg] in H.
+          specialize (IH (set_agg p1 agg_reset) [] eq_refl ltac:(congruence)).
+          destruct (process_lines_nb c r (set_agg p1 agg_reset)) as [p2 a2].
+          destruct (flush_aggregator split c p2) as [p3 a3]. cbn [set_agg jNL jNR j_fdl j_finfo j_bom] in IH.
+          destruct (H (filter (nc c) (group_rfc c [] (S (jNL p)) r))) as (E & A & B & _). rewrite E.
+          destruct IH as (E2 & A2 & B2). rewrite A in E2. rewrite E2. cbn [length]. rewrite <- app_assoc. repeat split; auto; try lia; congruence.
+        * fold (agg_open ((o :: os) ++ [l])).
+          specialize (IH (set_agg (bump p) (agg_open ((o :: os) ++ [l]))) ((o :: os) ++ [l]) eq_refl (fun _ => Hop ltac:(discriminate))).
+          destruct (process_lines_nb c r (set_agg (bump p) (agg_open ((o :: os) ++ [l])))) as [p1 a1]. cbn [app].
+          destruct (flush_aggregator split c p1) as [p2 a2]. cbn [set_agg bump jNL jNR j_fdl j_finfo j_bom] in IH.
+          destruct IH as (E & A & B). cbn [app] in E. rewrite E. cbn [length app]. repeat split; auto. lia.
+  Qed.
+
+  (* the other policies: every physical line is a row; comment lines are dropped *)
+  Lemma nb_simple c : c_rfc c = false -> forall L p,
+    let '(p1, a1) := process_lines_nb c L p in
+    emit_rows c (jNR p) (j_fdl p) (j_finfo p) (filter (nc c) (number_from (jNL p) L)) = (pstate p1, a1) /\
+    jNL p1 = (jNL p + length L)%nat /\ j_bom p1 = j_bom p /\ j_agg p1 = j_agg p.
+  Proof.
+    intros Hrfc. induction L as [|l r IH]; intros p.
+    - cbn. unfold pstate. repeat split; auto.
+    - cbn [process_lines_nb number_from filter]. unfold pl_core. rewrite Hrfc. unfold process_record_line_simple, nc at 1. cbn [fst].
+      destruct (is_comment c l); cbn [negb].
+      + specialize (IH (bump p)). destruct (process_lines_nb c r (bump p)) as [p1 a1]. cbn [bump jNL jNR j_fdl j_finfo j_bom j_agg] in IH.
+        destruct IH as (E & A & B & C). cbn [app length]. repeat split; auto. lia.
+      + pose proof (prl_emit c l (bump p)) as H. destruct (process_record_line split c l (bump p)) as [p1 a1].
+        cbn [bump jNL jNR j_fdl j_finfo j_bom j_agg] in H.
+        destruct (H (filter (nc c) (number_from (S (jNL p)) r))) as (E & A & B & C). rewrite E.
+        specialize (IH p1). destruct (process_lines_nb c r p1) as [p2 a2]. rewrite A in IH.
+        destruct IH as (E2 & A2 & B2 & C2). rewrite E2. cbn [length]. repeat split; auto; try lia; congruence.
+  Qed.
+
+  (* emit_rows against parse_rows: same records and counters when there is no rfc defect; otherwise the first stored
+     exception is the defect parse_rows reports *)
+  Lemma emit_parse c : forall rows nr fdl finfo E0,
+    match parse_rows split c nr fdl finfo rows with
+    | inl (recs, fin) =>
+        fst (emit_rows c nr fdl finfo rows) = fin /\ ghosts (snd (emit_rows c nr fdl finfo rows)) (E0, None) = (E0 ++ recs, None)
+    | inr (nr', nl) => snd (ghosts (snd (emit_rows c nr fdl finfo rows)) (E0, None)) = Some (JDefect nr' nl)
+    end.
+  Proof.
+    induction rows as [|[line nl] r IH]; intros nr fdl finfo E0.
+    - cbn. rewrite app_nil_r. auto.
+    - cbn [parse_rows emit_rows]. destruct (split line) as [record warning]. cbn [fst snd].
+      set (first := match fdl with None => true | Some _ => false end).
+      destruct (warning && first && c_rfc c) eqn:Ew.
+      + destruct (emit_rows c (S nr) _ _ r) as [fin acts2]. cbn [snd app ghosts fold_left ghost fst].
+        assert (G : forall acts g, snd g = Some (JDefect (S nr) nl) -> snd (fold_left (fun g a => ghost a g) acts g) = Some (JDefect (S nr) nl)).
+        { induction acts as [|a acts IHa]; intros g Hg; [exact Hg|]. cbn. apply IHa. destruct a; cbn; auto. rewrite Hg. reflexivity. }
+        apply G. reflexivity.
+      + specialize (IH (S nr) (if warning && first then Some nl else fdl) (fields_info_add finfo (length record) (S nr)) (E0 ++ [record])).
+        destruct (parse_rows split c (S nr) _ _ r) as [[recs fin]|[nr' nl']];
+          destruct (emit_rows c (S nr) _ _ r) as [fin2 acts2]; cbn [fst snd app ghosts fold_left ghost] in *.
+        * destruct IH as [-> IH]. split; [reflexivity|]. unfold ghosts in IH. rewrite IH, <- app_assoc. reflexivity.
+        * exact IH.
+  Qed.
+
+  Lemma number_from_length : forall L n, length (number_from n L) = length L.
+  Proof. induction L as [|l r IH]; intros n; cbn; [reflexivity|]. rewrite IH. reflexivity. Qed.
+
+  (* the whole line-level function of the JS reader = the specification shared with the Python reader *)
+  Theorem js_lines_spec c lines :
+    comment_ok c -> js_lines_result split c lines = jresult_of_result (records_of_lines split c lines).
+  Proof.
+    intros Hcok. unfold js_lines_result, records_of_lines. rewrite process_lines_bom.
+    pose proof (strip_bom_first_length (c_enc c) lines) as Hlen.
+    destruct (strip_bom_first (c_enc c) lines) as [lines1 bom]. cbn [fst snd] in *.
+    change (fun r : str * nat => negb (is_comment c (fst r))) with (nc c).
+    set (p0 := with_bom jprod_init bom).
+    assert (Hrows : exists p2 acts,
+       (let '(p1, a1) := process_lines_nb c lines1 p0 in let '(p2, a2) := flush_aggregator split c p1 in (p2, a1 ++ a2)) = (p2, acts) /\
+       emit_rows c 0 None [] (filter (nc c) (logical_rows c lines1)) = (pstate p2, acts) /\
+       jNL p2 = length lines /\ j_bom p2 = bom).
+    { unfold logical_rows. destruct (c_rfc c) eqn:Erfc.
+      - pose proof (nb_rfc c Hcok Erfc lines1 p0 [] eq_refl ltac:(congruence)) as H.
+        destruct (process_lines_nb c lines1 p0) as [p1 a1]. destruct (flush_aggregator split c p1) as [p2 a2].
+        exists p2, (a1 ++ a2). destruct H as (E & A & B). cbn in A, B. split; [reflexivity|]. split; [exact E|]. split; [lia|exact B].
+      - pose proof (nb_simple c Erfc lines1 p0) as H.
+        destruct (process_lines_nb c lines1 p0) as [p1 a1]. destruct H as (E & A & B & C).
+        unfold flush_aggregator. rewrite C. cbn. exists p1, (a1 ++ []). rewrite app_nil_r.
+        cbn in A, B. split; [reflexivity|]. split; [exact E|]. split; [lia|exact B]. }
+    destruct Hrows as (p2 & acts & Erun & Eemit & HNL & Hbom).
+    destruct (process_lines_nb c lines1 p0) as [p1 a1]. destruct (flush_aggregator split c p1) as [p2' a2].
+    inversion Erun; subst p2' acts. clear Erun.
+    pose proof (emit_parse c (filter (nc c) (logical_rows c lines1)) 0 None [] []) as HP. rewrite Eemit in HP. cbn [fst snd] in HP.
+    unfold js_outcome. destruct (parse_rows split c 0 None [] (filter (nc c) (logical_rows c lines1))) as [[recs [[nr fdl] finfo]]|[nr' nl]].
+    - destruct HP as [Hfin HG]. rewrite HG. cbn [fst snd app]. unfold pstate in Hfin. inversion Hfin.
+      unfold js_warnings, jresult_of_result. rewrite HNL, Hbom. reflexivity.
+    - rewrite HP. reflexivity.
+  Qed.
+End JsSpec.
